@@ -204,6 +204,10 @@ func (e *Exec) callSSA(caller *frame, pos token.Pos, fn *ssa.Function, args []Va
 			e.stubsHit[fn.String()]++
 			return h(fr, args)
 		}
+		if e.ld.zeroStubs[fn.String()] {
+			e.stubsHit["zero:"+fn.String()]++
+			return e.zeroResults(fn)
+		}
 		if m := e.ld.redirect(fn); m != nil {
 			e.stubsHit["model:"+fn.String()]++
 			fn = m
